@@ -12,6 +12,7 @@ for pid, cfg in sorted(props.PROPS.items()):
     if lvl == 'proof':
         text = ('Deductive proof (Verus/Z3) of every clause tagged %s on the real function bodies extracted from /repo on every run, for all inputs, sizes, limits, list lengths, orders, hashers and capacities, '
                 'relative to the assumed contracts of the unsafe pointer layer and of hashbrown; those assumed contracts are exercised only boundedly (Kani, <= 3 entries) and that part is labelled bounded, never counted as proved.' % pid)
+        text += (' ' + cfg['level_extra']) if cfg.get('level_extra') else ''
     else:
         text = ('Bounded model checking (Kani/CBMC) of the real unsafe code for caches of <= 3 entries / capacity <= 4 with contract-style postconditions (structural walker, ownership ledger, fingerprint, counters, modifies frames)'
                 + ('; in addition Verus proves, without bound, the clauses tagged %s on the extracted control-layer functions' % pid if cfg['templates'] else '')
